@@ -356,7 +356,7 @@ pub fn sweep_pair<P: Fl, S: Fl>(job: &Job, out: &mut Out) {
             out.stats.inc("shapes");
             for root in 0..p.n as K {
                 for lk in loop_kinds(P::DIRECTED, p.n, root) {
-                    let base = LCase { n: p.n, conns: conns.clone(), root, lk, script: vec![] };
+                    let base = LCase { n: p.n, conns: conns.clone(), root, lk, script: vec![], reject: false };
                     let mut cases = vec![base.clone()];
                     for o in &sops {
                         if !matches!(o, SOp::Mut(Op::Connect(..)) | SOp::Mut(Op::TryConnect(..))) {
